@@ -3,8 +3,12 @@
 package bill
 
 import (
+	"github.com/invopop/gobl/cal"
+	"github.com/invopop/gobl/currency"
 	"github.com/invopop/gobl/internal/vrt"
 	"github.com/invopop/gobl/num"
+	"github.com/invopop/gobl/org"
+	"github.com/invopop/gobl/tax"
 )
 
 // C04 (numeric core) — calculation is a fixpoint: calculating an already calculated document again changes
@@ -156,4 +160,40 @@ func c04FixedFiner(inv *Invoice, cur uint32) bool {
 		}
 	}
 	return false
+}
+
+// H_C04_AltPrice: items priced in a foreign currency with an alternative price in the document currency
+// (written with 0, 1 or 2 decimals) or converted with an exchange rate: recalculation is a fixpoint.
+func H_C04_AltPrice() {
+	rule := skRule("rule")
+	icur := currency.Code("JPY")
+	if vrt.Choice("icur", 2) == 1 {
+		icur = "USD"
+	}
+	pr := num.MakeAmount(vrt.Int64In("price", -1000000, 1000000), icur.Def().Subunits)
+	p21 := skP21
+	l := &Line{Quantity: num.MakeAmount(5, 1), Item: &org.Item{Name: "x", Currency: icur, Price: &pr}, Taxes: tax.Set{{Category: "VAT", Percent: &p21}}}
+	inv := &Invoice{Currency: "EUR", IssueDate: cal.MakeDate(2024, 3, 1), Tax: &Tax{Rounding: rule}, Lines: []*Line{l}}
+	if vrt.Choice("alt", 2) == 1 {
+		aexp := uint32(vrt.Choice("altexp", 3))
+		l.Item.AltPrices = []*currency.Amount{{Currency: "EUR", Value: num.MakeAmount(vrt.Int64In("alt.value", -100000, 100000), aexp)}}
+	} else {
+		inv.ExchangeRates = []*currency.ExchangeRate{{From: icur, To: "EUR", Amount: num.MakeAmount(vrt.Int64In("rate", 1, 99999), 4)}}
+	}
+	if calculate(inv) != nil {
+		return
+	}
+	first := c04Snapshot(inv)
+	if calculate(inv) != nil {
+		vrt.Assert(false, "alt-recalculates")
+		return
+	}
+	second := c04Snapshot(inv)
+	same := len(first.vals) == len(second.vals)
+	if same {
+		for k := range first.vals {
+			same = vrt.And(same, vrt.And(first.vals[k] == second.vals[k], first.exps[k] == second.exps[k]))
+		}
+	}
+	vrt.Assert(same, "alt-price-recalculation-changes-nothing")
 }
